@@ -280,15 +280,17 @@ def tracked_index_rules(ctx) -> None:
               found="; ".join(p.describe() + " :: " + " | ".join(p.effect_texts()) for p in ps)[:300])
     # (second spelling: through set_indexed_outputs with the indices of the live slots; by the rules on set_indexed_outputs, _to_wires and
     #  tracked_wire in this same check, an index i of a slot that is not None resolves to tracked[i])
-    from ..rulekit import need_any
-    need_any(ctx, R, f"{TD}.set_tracked_outputs", "TrackedDfg.set_tracked_outputs",
-             [["self.set_outputs(*(c0 for c0 in self.tracked if c0 is not None))"],
-              ["self.set_indexed_outputs(*(c0 for c0, c1 in enumerate(self.tracked) if c1 is not None))"]],
-             "outputs set from tracked indices are the still-tracked wires in index order")
+    # (these short methods ARE the statement named: outputs are set unconditionally -- also when there are none, the Output node and the
+    #  parent still get their (empty) row -- and from the arguments as given)
+    from ..rulekit import need_exact
+    need_exact(ctx, R, f"{TD}.set_tracked_outputs", "TrackedDfg.set_tracked_outputs",
+               [["self.set_outputs(*(c0 for c0 in self.tracked if c0 is not None))"],
+                ["self.set_indexed_outputs(*(c0 for c0, c1 in enumerate(self.tracked) if c1 is not None))"]],
+               "outputs set from tracked indices are the still-tracked wires in index order")
     # (the resolution helper, whatever it is called and whichever class provides it, is seen through)
-    need(ctx, R, f"{TD}.set_indexed_outputs", "TrackedDfg.set_indexed_outputs",
-         ["self.set_outputs(*(self.tracked_wire(c0) if isinstance(c0, int) else c0 for c0 in L_in))"], "indexed outputs resolve ints through the tracked wires",
-         inline=("_to_wires",), supers=True)
+    need_exact(ctx, R, f"{TD}.set_indexed_outputs", "TrackedDfg.set_indexed_outputs",
+               [["self.set_outputs(*(self.tracked_wire(c0) if isinstance(c0, int) else c0 for c0 in L_in))"]], "indexed outputs resolve ints through the tracked wires",
+               inline=("_to_wires",), supers=True)
     init = fn_of("__init__")
     ps = [p for p in ctx.paths(f"{TD}.__init__") if p.kind != "raise"]
     ok = bool(ps)
@@ -299,8 +301,9 @@ def tracked_index_rules(ctx) -> None:
         ok = ok and fv is not None and len(t) == 1 and u(fv) == ("[*self.inputs()]" if t[0] else "[]")
     ctx.check(ok, R, "TrackedDfg.__init__", file, init.lineno, "tracking starts empty or with the inputs in order", init,
               found="; ".join(p.describe() + " :: " + " | ".join(p.effect_texts()) for p in ps)[:300])
-    need(ctx, R, f"{TD}.track_wires", "TrackedDfg.track_wires", ["return [self.track_wire(c0) for c0 in L_wires]"])
-    need(ctx, R, f"{TD}.track_inputs", "TrackedDfg.track_inputs", ["return self.track_wires(self.inputs())"])
+    need_exact(ctx, R, f"{TD}.track_wires", "TrackedDfg.track_wires", [["return [self.track_wire(c0) for c0 in L_wires]"]],
+               "every wire of the iterable given is tracked, in order (a Node is itself an iterable of its output wires)")
+    need_exact(ctx, R, f"{TD}.track_inputs", "TrackedDfg.track_inputs", [["return self.track_wires(self.inputs())"]])
     # commands given in one batch are applied one after the other: each one's indices are resolved against the table the previous
     # commands left (whichever class of the hierarchy provides `extend`)
     need(ctx, "C15.R3", f"{TD}.extend", "TrackedDfg.extend: one add per command, in order", ["return [self.add(c0) for c0 in L_coms]"],
